@@ -225,5 +225,20 @@ inline VTB makeValidVTB(RealWorld& w, uint8_t endorsedVbk, uint8_t prevVbk, uint
   v.containingBlock = mineVbk(w, prevVbk, h.trim<16>());
   return v;
 }
+// the VBK tree's own payload index is EXACTLY the set {(VTB id, containing VBK block)} of the existing VBK blocks (both directions);
+// a VTB id that occurs twice in one block (allowed at that level) is one pair
+inline bool vbkIndexExact(AltBlockTree& t) {
+  bool ok = true; size_t pairs = 0, inIndex = 0;
+  for (auto* b : t.vbk().getBlocks()) {
+    auto& ids = b->getPayloadIds<VTB>();
+    for (size_t i = 0; i < ids.size(); i++) {
+      ok = ok && t.vbk().getPayloadsIndex().find(ids[i].asVector()).count(b->getHash()) == 1;
+      bool seen = false; for (size_t j = 0; j < i; j++) seen = seen || ids[j] == ids[i];
+      pairs += !seen;
+    }
+  }
+  for (auto& kv : t.vbk().getPayloadsIndex().getAll()) { ok = ok && !kv.second.empty(); for (auto& h : kv.second) { ok = ok && t.vbk().getBlockIndex(h) != nullptr; inIndex++; } }
+  return ok && inIndex == pairs;
+}
 inline bool isAltAncestorOrSelf(const RealWorld& w, int a, int x) { while (x) { if (x == a) return true; x = w.parent[x]; } return false; }
 }  // namespace vr
